@@ -37,7 +37,7 @@ deriving DecidableEq, Repr
 
 /-- site key ↦ how it is covered -/
 def cover : List (String × List Cover) := [
-  ("amgcl/adapter/block_matrix.hpp|unblock_matrix|A.ptr", [.poison "h_pipeline"]),
+  ("amgcl/adapter/block_matrix.hpp|unblock_matrix|A.ptr", [.thm "Amgcl.C10d.unblock_ptr_defined", .poison "h_pipeline"]),
   ("amgcl/backend/builtin.hpp|crs::crs|col", [.thm "Amgcl.C10c.clone_defined", .poison "h_pipeline"]),
   ("amgcl/backend/builtin.hpp|crs::crs|col#2", [.thm "Amgcl.C10c.crs_copy_defined", .poison "h_pipeline"]),
   ("amgcl/backend/builtin.hpp|crs::crs|col#3", [.thm "Amgcl.C10c.clone_defined", .poison "h_pipeline"]),
@@ -59,17 +59,17 @@ def cover : List (String × List Cover) := [
   ("amgcl/backend/builtin.hpp|numa_vector::numa_vector|p#2", [.thm "Amgcl.C10c.fill_vec_defined", .poison "h_pipeline"]),
   ("amgcl/backend/builtin.hpp|numa_vector::numa_vector|p#3", [.thm "Amgcl.C10c.fill_vec_defined", .poison "h_pipeline"]),
   ("amgcl/backend/builtin.hpp|numa_vector::resize|p", [.thm "Amgcl.C10c.fill_vec_defined", .poison "h_pipeline"]),
-  ("amgcl/backend/builtin.hpp|pointwise_matrix|Ap.col+val", [.poison "h_pipeline"]),
-  ("amgcl/backend/builtin.hpp|spectral_radius|b0", [.poison "h_pipeline"]),
-  ("amgcl/backend/builtin.hpp|spectral_radius|b1", [.poison "h_pipeline"]),
+  ("amgcl/backend/builtin.hpp|pointwise_matrix|Ap.col+val", [.thm "Amgcl.C10d.pointwise_matrix_defined", .poison "h_pipeline"]),
+  ("amgcl/backend/builtin.hpp|spectral_radius|b0", [.thm "Amgcl.C10d.spectral_radius_power_defined", .poison "h_pipeline"]),
+  ("amgcl/backend/builtin.hpp|spectral_radius|b1", [.thm "Amgcl.C10d.spectral_radius_power_defined", .poison "h_pipeline"]),
   ("amgcl/backend/builtin.hpp|sum|C.col+val", [.thm "Amgcl.C10.sum_cells_all_written", .poison "h_pipeline"]),
   ("amgcl/backend/builtin.hpp|sum|C.ptr", [.thm "Amgcl.C10.sum_cells_all_written", .poison "h_pipeline"]),
   ("amgcl/coarsening/ruge_stuben.hpp|ruge_stuben::connect|S.col", [.thm "Amgcl.C10b.connect_indep_heap", .poison "h_pipeline"]),
   ("amgcl/coarsening/ruge_stuben.hpp|ruge_stuben::connect|S.ptr", [.thm "Amgcl.C10b.connect_indep_heap", .poison "h_pipeline"]),
   ("amgcl/coarsening/ruge_stuben.hpp|ruge_stuben::connect|S.val", [.thm "Amgcl.C10.connect_defined", .thm "Amgcl.C10b.connect_flags_written", .poison "h_pipeline"]),
   ("amgcl/coarsening/ruge_stuben.hpp|ruge_stuben::operators|P.col+val", [.thm "Amgcl.C10b.prolongation_cells_all_written", .poison "h_pipeline"]),
-  ("amgcl/coarsening/smoothed_aggr_emin.hpp|smoothed_aggr_emin::operators|Af.col+val", [.poison "h_pipeline"]),
-  ("amgcl/coarsening/smoothed_aggr_emin.hpp|smoothed_aggr_emin::operators|Af.ptr", [.poison "h_pipeline"]),
+  ("amgcl/coarsening/smoothed_aggr_emin.hpp|smoothed_aggr_emin::operators|Af.col+val", [.thm "Amgcl.C10d.emin_Af_defined", .poison "h_pipeline"]),
+  ("amgcl/coarsening/smoothed_aggr_emin.hpp|smoothed_aggr_emin::operators|Af.ptr", [.thm "Amgcl.C10d.emin_Af_defined", .poison "h_pipeline"]),
   ("amgcl/coarsening/tentative_prolongation.hpp|tentative_prolongation|P.col+val", [.thm "Amgcl.C10c.tentative_prolongation_defined", .poison "h_pipeline"]),
   ("amgcl/coarsening/tentative_prolongation.hpp|tentative_prolongation|P.ptr", [.thm "Amgcl.C10d.tentative_ns_ptr_defined", .poison "h_pipeline"]),
   ("amgcl/coarsening/tentative_prolongation.hpp|tentative_prolongation|P.ptr#2", [.thm "Amgcl.C10c.tentative_prolongation_defined", .poison "h_pipeline"]),
@@ -146,11 +146,11 @@ def cover : List (String × List Cover) := [
   ("amgcl/relaxation/ilu0.hpp|ilu0::ilu0|L.ptr", [.thm "Amgcl.C10d.ilu0_LU_defined", .poison "h_pipeline"]),
   ("amgcl/relaxation/ilu0.hpp|ilu0::ilu0|U.col+val", [.thm "Amgcl.C10d.ilu0_LU_defined", .poison "h_pipeline"]),
   ("amgcl/relaxation/ilu0.hpp|ilu0::ilu0|U.ptr", [.thm "Amgcl.C10d.ilu0_LU_defined", .poison "h_pipeline"]),
-  ("amgcl/relaxation/iluk.hpp|iluk::iluk|D", [.poison "h_pipeline"]),
+  ("amgcl/relaxation/iluk.hpp|iluk::iluk|D", [.thm "Amgcl.C10d.iluk_D_defined", .poison "h_pipeline"]),
   ("amgcl/relaxation/ilup.hpp|ilup::ilup|P.val", [.poison "h_pipeline"]),
   ("amgcl/relaxation/ilup.hpp|symb_product|C.col", [.poison "h_pipeline"]),
   ("amgcl/relaxation/ilup.hpp|symb_product|C.ptr", [.poison "h_pipeline"]),
-  ("amgcl/relaxation/ilut.hpp|ilut::ilut|D", [.poison "h_pipeline"]),
+  ("amgcl/relaxation/ilut.hpp|ilut::ilut|D", [.thm "Amgcl.C10d.ilut_D_defined", .poison "h_pipeline"]),
   ("amgcl/relaxation/ilut.hpp|ilut::ilut|L.col+val", [.thm "Amgcl.C10d.ilut_LU_defined", .poison "h_pipeline"]),
   ("amgcl/relaxation/ilut.hpp|ilut::ilut|L.ptr", [.thm "Amgcl.C10d.ilut_LU_defined", .poison "h_pipeline"]),
   ("amgcl/relaxation/ilut.hpp|ilut::ilut|U.col+val", [.thm "Amgcl.C10d.ilut_LU_defined", .poison "h_pipeline"]),
